@@ -3,7 +3,7 @@
    Model: TextReader (sk_scan, skip_container_loop, suv_scan, skip_unquoted_value_loop) over BufWin.
    Specification: TextSkipRef (sk_scan_bytes, sref / skip_ref, skip_need, tok_count, uv_ref). *)
 From JV Require Import Bytes Tables U64Swar BufWin TextTok TextReader TextRef TextSkipRef TextTape TextDoc.
-From JV.proofs Require Import BufWinProofs TextReaderMainProofs TextSkipProofs TextSkipStreamProofs TextSkipTokProofs TextSkipUvProofs TextScanProofs TextSkipDocProofs.
+From JV.proofs Require Import BufWinProofs TextReaderMainProofs TextSkipProofs TextSkipStreamProofs TextSkipTokProofs TextSkipUvProofs TextScanProofs TextSkipEndProofs TextSkipDocProofs.
 Open Scope nat_scope.
 
 (* 1. The 8-byte SWAR step (contains_zero_byte for quote / hash / brace detection, count_chunk for
@@ -253,3 +253,34 @@ Proof.
     + intros _. reflexivity.
   - eexists [_; _]. eexists. split; reflexivity.
 Qed.
+
+(* 6. End to end (3 + 4): in any state of the streaming reader, under any schedule and any buffer
+   with skip_need <= cap: if reading tokens from the remaining stream and counting Open / Close
+   finds the matching close and leaves [rem] (all unquoted tokens on the way plain), then
+   skip_container succeeds and the remaining stream of the reader IS [rem] -- the next token read
+   is the token that follows the matching close (C07: next_opt on r' = tk on stream_of r'). *)
+Theorem C09_text_skip_lands_on_token : forall input fuel r toks rem,
+  wf_bytes input -> rok input r -> skip_cap_ok r -> length (rest (rrd r)) < fuel ->
+  token_skip (stream_of r) = Some (toks, rem) -> forallb tok_plain toks = true ->
+  exists r', skip_container fuel r = Ok r' /\ rok input r' /\ stream_of r' = rem /\
+             reader_position r' = reader_position r + (length (stream_of r) - length rem) /\
+             cap (rbw r') = cap (rbw r).
+Proof. exact skip_container_lands_on_token. Qed.
+Print Assumptions C09_text_skip_lands_on_token.
+
+(* ... and on documents: a reader standing just after any Open of the rendering of a simple
+   document is left, by skip_container, on the rendering of the tokens that follow the matching
+   Close of the document's token list.  Partial in the same sense as 4b. *)
+Theorem C09_text_doc_stream_partial : forall d l pre post input fuel r,
+  simple_fields d = true -> wf_layout d l ->
+  toks_fields d = pre ++ lbrace :: post ->
+  wf_bytes input -> rok input r ->
+  stream_of r = render_toks (gap l) post (S (length pre)) ->
+  skip_cap_ok r -> length (rest (rrd r)) < fuel ->
+  exists post' r',
+    match_close 1 post = Some post' /\
+    skip_container fuel r = Ok r' /\ rok input r' /\
+    stream_of r' = render_toks (gap l) post' (length (toks_fields d) - length post') /\
+    cap (rbw r') = cap (rbw r).
+Proof. exact doc_stream_skip. Qed.
+Print Assumptions C09_text_doc_stream_partial.
